@@ -6,7 +6,9 @@ TITLE = 'Server sends exactly one matching response per accepted request'
 QUICK_S = 40
 THOROUGH_S = 600
 RULE = ('seeded scenarios on H-SRV: front-end x framing x single/multi x flags x 1-3 connections x <=8 requests each, '
-        'one frame per read or pipelined; a run is non-trivial when >=1 request was executed; distinct = distinct '
+        'one frame per read or pipelined; data-access requests plus the other services (diagnostic sub-functions incl. force listen '
+        'only, file records, FIFO, device identification, event counters) and an application-defined function code that 10 % of the '
+        'servers have registered (echo) and the others must refuse with exception 01; a run is non-trivial when >=1 request was executed; distinct = distinct '
         '(actor, event-kind) sequence of the kernel log + front-end + framing')
 ASSUMPTIONS = ['reliable ordered byte streams / loss-free datagrams (fault-free network: C09 is about the response relation, not about framing faults)',
                'reference codec ref/codec.py parses the server output (spec-derived, shares no code with pymodbus)',
@@ -17,7 +19,7 @@ CLASSES = ('response-missing', 'response-extra', 'response-unexpected', 'respons
 
 PROFILE = {'invalid_rate': 0.15, 'opaque_rate': 0.1, 'unknown_unit_rate': 0.2, 'multi_rate': 0.45,
            'broadcast_rate': 0.25, 'max_conns': 3, 'max_reqs': 8, 'pipeline_rate': 0.25, 'cut_rate': 0.2,
-           'listen_only': True}
+           'listen_only': True, 'custom_rate': 0.1}
 
 
 def generate(rng, tier, index):
